@@ -302,6 +302,8 @@ fn phases(thorough: bool, c16: bool) -> Vec<Phase> {
     }
     v.push(debruijn_phase(thorough, c16));
     v.push(macro_move_phase(thorough, c16));
+    v.push(sized_phase(thorough, c16));
+    v.push(flaky_phase(thorough));
     let n = nasty.len();
     v.push(Phase {
         name: "histories-nasty-ends",
@@ -312,6 +314,168 @@ fn phases(thorough: bool, c16: bool) -> Vec<Phase> {
         bounds: json!({"shapes": "end lists of length 1..3 over {-MAX,-1,-2^-1022,-0.0,+0.0,5e-324,1,succ(1),1e300,MAX,+inf}", "depth": 3}),
     });
     v
+}
+
+/// A piece type whose own `evaluate` panics at one argument: the panic passes through the evaluator to the caller, who catches
+/// it and goes on using the same evaluator. Every later answer must still be the direct evaluation's (exception safety of
+/// the cursor / remembered-argument pair).
+#[derive(Clone, Copy, Debug, PartialEq)]
+struct Flaky {
+    id: u32,
+    poison: u64,
+}
+impl Evaluate for Flaky {
+    fn evaluate(&self, x: f64) -> f64 {
+        if x.to_bits() == self.poison {
+            panic!("piece refuses this argument");
+        }
+        Probe(self.id).evaluate(x)
+    }
+}
+fn flaky_phase(thorough: bool) -> Phase {
+    let mut sh = shapes(&[1.0, 2.0, 3.0, 4.0], 4);
+    sh.push(iota(6));
+    sh.push(vec![1.0, 2.0, 2.0, 3.0, f64::INFINITY]);
+    let n = sh.len();
+    let sh = Arc::new(sh);
+    Phase {
+        name: "histories-with-a-panicking-piece",
+        units: n,
+        split: 2,
+        body: Box::new(move |unit, cx| {
+            let ends = &sh[unit];
+            let alpha = order_alphabet(ends);
+            let poison = alpha[cx.choose(alpha.len())];
+            let pw: Piecewise<Flaky> = Piecewise { segments: ends.iter().enumerate().map(|(i, &e)| Segment { end: e, poly: Flaky { id: i as u32, poison: poison.to_bits() } }).collect() };
+            let depth = if ends.len() <= 3 { if thorough { 4 } else { 3 } } else if thorough { 3 } else { 2 };
+            let d = 1 + cx.choose(depth);
+            let xs: Vec<f64> = (0..d).map(|_| alpha[cx.choose(alpha.len())]).collect();
+            if xs.iter().any(|x| x.to_bits() == poison.to_bits()) && xs.last().map_or(false, |x| x.to_bits() != poison.to_bits()) {
+                cx.nontrivial();
+            }
+            cx.evals(d as u64);
+            if cx.sampling() {
+                cx.sample(json!({"ends": fjs(ends), "argument_at_which_pieces_panic": fj(poison), "history": fjs(&xs)}));
+            }
+            let mut ev = PiecewiseEvaluator::new(&pw.segments);
+            for (t, &x) in xs.iter().enumerate() {
+                let got = guard(|| ev.evaluate(x));
+                let want = guard(|| pw.evaluate(x));
+                let ok = match (&got, &want) {
+                    (Ok(a), Ok(b)) => a.to_bits() == b.to_bits(),
+                    (Err(_), Err(_)) => true,
+                    _ => false,
+                };
+                if !ok {
+                    return Err(Fail::new(
+                        "after a panic raised by a piece's own evaluate (caught by the caller), PiecewiseEvaluator no longer agrees with direct evaluation",
+                        json!({"ends": fjs(ends), "argument_at_which_pieces_panic": fj(poison), "history": fjs(&xs[..=t]), "got": got.as_ref().map(|v| fj(*v)).map_err(|e| e.clone()), "direct_evaluation": want.as_ref().map(|v| fj(*v)).map_err(|e| e.clone())}),
+                    ));
+                }
+            }
+            Ok(())
+        }),
+        classes: vec![],
+        bounds: json!({"shapes": "end lists of length 1..4 over {1..4}, 1..6, [1,2,2,3,+inf]", "piece type": "a probe piece whose evaluate panics at one argument of A(ends) (every choice of that argument)", "histories": "every history of length 1..3 (4 thorough; 2 resp. 3 for more than 3 pieces) over A(ends) on one evaluator, panics caught by the caller"}),
+    }
+}
+
+/// every number of pieces for piece types of every size, three structured histories each (thresholds in segments and in
+/// bytes, crossed for each type): forward sweep through every cell and end, backward sweep, far / near alternation and jumps
+fn sized_phase(thorough: bool, c16: bool) -> Phase {
+    fn sized<T: Nums + Evaluate>(n: usize, pattern: usize, nan: bool, name: &str, cx: &mut Cx) -> Verdict {
+        let ends: Vec<f64> = (0..n).map(|i| 0.5 + i as f64 * 0.25).collect();
+        let pw: Piecewise<T> = Piecewise {
+            segments: ends.iter().enumerate().map(|(i, &e)| Segment { end: e, poly: T::from_nums(&(0..T::N).map(|l| 1.0 + (i % 251) as f64 + 0.125 * l as f64).collect::<Vec<_>>()) }).collect(),
+        };
+        let cell = |k: usize| ends[k.min(n - 1)] - 0.125;
+        let mut xs: Vec<f64> = vec![];
+        match pattern {
+            0 => {
+                for k in 0..n {
+                    xs.push(cell(k));
+                    xs.push(ends[k]);
+                }
+                xs.push(ends[n - 1] + 3.0);
+            }
+            1 => {
+                xs.push(ends[n - 1] + 1.0);
+                for k in (0..n).rev().step_by(3) {
+                    xs.push(cell(k));
+                }
+                xs.push(f64::NEG_INFINITY);
+            }
+            _ => {
+                for j in 0..8usize {
+                    xs.push(cell(n - 1));
+                    xs.push(cell(j));
+                }
+                for (k, d) in [(0usize, 33usize), (33, 65), (98, 1), (99, 200)] {
+                    xs.push(cell(k + d));
+                    xs.push(cell(k));
+                    xs.push(ends[(k + d).min(n - 1)]);
+                }
+                xs.push(cell(4));
+                xs.push(ends[3.min(n - 1)]);
+            }
+        }
+        if nan {
+            // C16: a NaN query after every seventh query
+            let mut ys = vec![];
+            for (i, x) in xs.iter().enumerate() {
+                ys.push(*x);
+                if i % 7 == 3 {
+                    ys.push(f64::NAN);
+                }
+            }
+            xs = ys;
+        }
+        cx.nontrivial();
+        cx.evals(xs.len() as u64);
+        if cx.sampling() {
+            cx.sample(json!({"piece_type": name, "pieces": n, "pattern": pattern, "queries": xs.len()}));
+        }
+        let r = guard(|| {
+            let mut ev = PiecewiseEvaluator::new(&pw.segments);
+            for (t, &x) in xs.iter().enumerate() {
+                let y = ev.evaluate(x);
+                if !x.is_nan() && y.to_bits() != pw.evaluate(x).to_bits() {
+                    return Some((t, x, y, pw.evaluate(x)));
+                }
+            }
+            None
+        });
+        match r {
+            Err(p) => Err(Fail::new(format!("PiecewiseEvaluator panicked: {p}"), json!({"piece_type": name, "pieces": n, "pattern": pattern}))),
+            Ok(Some((t, x, y, d))) => Err(Fail::new(
+                "PiecewiseEvaluator answer differs from direct evaluation of the same argument",
+                json!({"piece_type": name, "pieces": n, "ends": "0.5 + i/4", "pattern": pattern, "query_number": t, "x": fj(x), "got": fj(y), "direct_evaluation": fj(d), "history": fjs(&xs[..=t.min(xs.len() - 1)].iter().rev().take(12).rev().cloned().collect::<Vec<_>>())}),
+            )),
+            Ok(None) => Ok(()),
+        }
+    }
+    Phase {
+        name: "every-number-of-pieces",
+        units: 6,
+        split: 1,
+        body: Box::new(move |unit, cx| {
+            let top = if thorough { 1500 } else { 600 };
+            let k = cx.choose(top - 1 + 3);
+            let n = if k < top - 1 { 2 + k } else { [1025usize, 4097, 16385][k - (top - 1)] };
+            let pattern = cx.choose(3);
+            match unit {
+                0 => sized::<Poly0>(n, pattern, c16, "Poly0", cx),
+                1 => sized::<Poly2>(n, pattern, c16, "Poly2", cx),
+                2 => sized::<Poly3>(n, pattern, c16, "Poly3", cx),
+                3 => sized::<Poly5>(n, pattern, c16, "Poly5", cx),
+                4 => sized::<Poly8>(n, pattern, c16, "Poly8", cx),
+                _ => sized::<IntOfLogPoly4>(n, pattern, c16, "IntOfLogPoly4", cx),
+            }
+        }),
+        classes: classes(c16).into_iter().map(|(n, _)| (n, false)).collect(),
+        bounds: json!({"piece_types": "Poly0, Poly2, Poly3, Poly5, Poly8, IntOfLogPoly4 (Segment sizes 16..80 bytes)", "pieces": if thorough {"every n from 2 to 1500, and 1025, 4097, 16385"} else {"every n from 2 to 600, and 1025, 4097, 16385"},
+            "histories": "forward sweep through every cell and every end exactly; backward sweep through every third cell; last cell / first eight cells alternately, then jumps of 33, 65, 1 and 200 cells forth and back with the target end hit exactly (C16: a NaN query after every seventh query)"}),
+    }
 }
 
 /// one long history per shape: a de Bruijn sequence of order 3 (4 thorough) over the full alphabet, so that every window of
